@@ -13,12 +13,12 @@ export CARGO_NET_OFFLINE=true
 RUSTFLAGS="-C instrument-coverage" cargo +nightly build -q -p vreal --target-dir $COV/real || exit 1
 RUSTFLAGS="-C instrument-coverage --cfg tiny_http_verif" cargo +nightly build -q -p vhook --target-dir $COV/hook || exit 1
 RUSTFLAGS="-C instrument-coverage --cfg tiny_http_verif" cargo +nightly build -q -p vsched --target-dir $COV/sched || exit 1
-scale=${1:-0.3}
+scale=${1:-0.05}
 cd /verif
 for p in C01 C02 C03 C04 C05 C06 C07 C08 C09 C10 C11 C12 C13 C14 C15 C16 C17 C18 C19 C20; do
   for b in real:vreal hook:vhook sched:vsched; do
     d=${b%%:*}; n=${b##*:}
-    LLVM_PROFILE_FILE="$COV/prof/$p-$n-%p-%m.profraw" VERIF_ROOT=/verif timeout 900 $COV/$d/debug/$n $p --scale $scale --out $COV/rep.json >/dev/null 2>&1
+    LLVM_PROFILE_FILE="$COV/prof/$p-$n-%p-%m.profraw" VERIF_ROOT=/verif timeout 300 $COV/$d/debug/$n $p --scale $scale --workers 3 --out $COV/rep.json >/dev/null 2>&1
   done
 done
 $BIN/llvm-profdata merge -sparse $COV/prof/*.profraw -o $COV/all.profdata
